@@ -216,7 +216,7 @@ def _check_dt(plan, ctx):
             want = [None if o is None else build.acell(o, False) for o in r[1]]
             if len(got) != n or not all(build.same_cell(a, b) for a, b in zip(got, want)):
                 raise Violation("dt.replace differs from datetime.replace element-wise", kw=kw, got=got, want=want, input=vals)
-            via = x.dt.replace(**real_kw)
+            via = ctx.call("Vector.dt.replace", lambda: x.dt.replace(**real_kw))
             if build.cells(via) != got:
                 raise Violation("Vector.dt.replace differs from dt.replace")
             if all(not isinstance(v, list) for v in kw.values()):
@@ -243,7 +243,7 @@ def _check_dt(plan, ctx):
             if na != [o is None for o in objs]:
                 raise Violation("dt.to_string: NaT positions are not reported missing by is_na", is_na=na,
                                 dtype=str(np.asarray(out).dtype))
-        via = x.dt.to_string(fmt)
+        via = ctx.call("Vector.dt.to_string", lambda: x.dt.to_string(fmt))
         if build.cells(via) != got:
             raise Violation("Vector.dt.to_string differs from dt.to_string")
         for j in [j for j, o in enumerate(objs) if o is not None][:2]:
@@ -328,7 +328,7 @@ def _check_re(plan, ctx):
             raise Violation("regex.sub does not return a string vector", dtype=str(np.asarray(out).dtype))
     if got != want:
         raise Violation(f"regex.{fn} differs from re.{fn} element-wise (missing -> missing)", got=got, want=want, plan=plan)
-    via = proxy()
+    via = ctx.call(f"Vector.re.{fn}", proxy)          # the module function succeeded: so must the proxy
     if n >= 2:
         y = x[::-1]
         ya = list(np.asarray(y.re.findall("a"), dtype=object))
